@@ -1,23 +1,445 @@
+// C11 correspondence harness: drives the REAL felix/bpf/polprog.Builder.
+//
+// Per case: one generated policy configuration is compiled by the real builder;
+// the assembled instructions (opcode, regs, offset, immediate of every slot)
+// are the canonical output of the `prog` line and must equal the Lean model's
+// instruction list exactly.  The real instructions are then handed to the Lean
+// interpreter (`real` line) and both interpreters (Lean, and the Go twin in
+// interp.go) run them on generated packet states (`pkt` lines).
+//
+// Property oracle (on the real code): the real builder must not panic / fail on
+// a valid configuration, and the real instructions, interpreted, must reach the
+// reference verdict (ref.go) on every packet.
 package main
 
 import (
 	"fmt"
+	"math/big"
+	"strconv"
+	"strings"
 
+	"github.com/projectcalico/calico/felix/bpf/asm"
 	"github.com/projectcalico/calico/felix/bpf/polprog"
-	"github.com/projectcalico/calico/felix/proto"
+
+	"verif/harness/rt"
 )
 
-type idp struct{}
+type idProvider struct{}
 
-func (idp) GetNoAlloc(s string) uint64 { return 0x1234 }
+// IP set names are "s:<id>"; id 0 means "unknown set" (GetNoAlloc returns 0).
+func (idProvider) GetNoAlloc(name string) uint64 {
+	v, err := strconv.ParseUint(strings.TrimPrefix(name, "s:"), 10, 64)
+	if err != nil {
+		return 0
+	}
+	return v
+}
+
+type state struct {
+	cfg   *gCfg
+	progs []asm.Insns
+}
+
+func showProgs(progs []asm.Insns) string {
+	var sb strings.Builder
+	for i, p := range progs {
+		if i > 0 {
+			sb.WriteByte('|')
+		}
+		for j, in := range p {
+			if j > 0 {
+				sb.WriteByte(',')
+			}
+			fmt.Fprintf(&sb, "%d.%d.%d.%d.%d", uint8(in.OpCode()), int(in.Dst()), int(in.Src()), in.Off(), in.Imm())
+		}
+	}
+	return sb.String()
+}
+
+func parseProgs(txt string) []asm.Insns {
+	var out []asm.Insns
+	for _, p := range strings.Split(txt, "|") {
+		var prog asm.Insns
+		if p != "" {
+			for _, t := range strings.Split(p, ",") {
+				f := strings.Split(t, ".")
+				if len(f) != 5 {
+					return nil
+				}
+				prog = append(prog, asm.MakeInsn(asm.OpCode(atoi(f[0])), asm.Reg(atoi(f[1])), asm.Reg(atoi(f[2])), int16(atoi(f[3])), int32(atoi(f[4]))))
+			}
+		}
+		out = append(out, prog)
+	}
+	return out
+}
+
+// build runs the REAL builder.
+func build(c *gCfg) (progs []asm.Insns, res string) {
+	defer func() {
+		if r := recover(); r != nil {
+			progs, res = nil, "panic"
+		}
+	}()
+	opts := []polprog.Option{}
+	if c.V6 {
+		opts = append(opts, polprog.WithIPv6())
+	}
+	if c.FlowLogs {
+		opts = append(opts, polprog.WithFlowLogs())
+	}
+	if c.Debug {
+		opts = append(opts, polprog.WithPolicyDebugEnabled())
+	}
+	if c.UseJmps {
+		opts = append(opts, polprog.WithAllowDenyJumps(c.AllowJmp, c.DenyJmp))
+	}
+	if c.PolStride != 0 || c.PolIdx != 0 {
+		opts = append(opts, polprog.WithPolicyMapIndexAndStride(c.PolIdx, c.PolStride))
+	}
+	opts = append(opts, polprog.WithTrampolineStride(c.TrampStride))
+	opts = append(opts, polprog.VerifWithMaxJumpsPerProgram(c.MaxJumps))
+	b := polprog.NewBuilder(idProvider{}, fdOf(c.FDs[0]), fdOf(c.FDs[1]), fdOf(c.FDs[2]), fdOf(c.FDs[3]), opts...)
+	insns, err := b.Instructions(c.realRules())
+	if err != nil {
+		return nil, "err"
+	}
+	return insns, "ok"
+}
+
+// ---- validity (what "a configuration Felix can hand to the BPF dataplane" means here) ----
+
+func actionKnown(a string) bool {
+	switch strings.ToLower(a) {
+	case "allow", "deny", "log", "pass", "next-tier":
+		return true
+	}
+	return false
+}
+
+type cfgFacts struct {
+	valid        bool // every rule has an API-valid action, known IP sets, <=1 dst IP set, known protocol names
+	profileLog   bool // some profile rule has action log
+	oddProtoName bool // some rule names a protocol the API allows but protocolToNumber does not know
+	profilePass  bool // some profile rule has action pass/next-tier
+}
+
+func (c *gCfg) facts() cfgFacts {
+	f := cfgFacts{valid: true}
+	rule := func(r *gRule, inProfile bool) {
+		if !actionKnown(r.Action) {
+			f.valid = false
+		}
+		a := strings.ToLower(r.Action)
+		if inProfile && a == "log" {
+			f.profileLog = true
+		}
+		if inProfile && (a == "pass" || a == "next-tier") {
+			f.profilePass = true
+		}
+		fr := filterRule(c.V6, r)
+		if fr != nil {
+			if len(fr.DstSets) > 1 {
+				f.valid = false
+			}
+			for _, ids := range [][]uint64{fr.SrcSets, fr.NotSrcSets, fr.DstSets, fr.NotDstSets, fr.DstPortSets, fr.SrcNamed, fr.NotSrcNamed, fr.DstNamed, fr.NotDstNamed} {
+				for _, id := range ids {
+					if id == 0 {
+						f.valid = false
+					}
+				}
+			}
+		}
+		for _, p := range []*gProto{r.Proto, r.NotProto} {
+			if p == nil {
+				continue
+			}
+			if _, ok := protoNumberRef(p); !ok {
+				f.valid = false
+			} else if p.IsName {
+				switch strings.ToLower(p.Name) {
+				case "icmpv6", "udplite":
+					f.oddProtoName = true
+				}
+			}
+		}
+	}
+	tiers := func(ts []gTier) {
+		for i := range ts {
+			for j := range ts[i].Policies {
+				for k := range ts[i].Policies[j].Rules {
+					rule(&ts[i].Policies[j].Rules[k], false)
+				}
+			}
+		}
+	}
+	profs := func(ps []gPolicy) {
+		for j := range ps {
+			for k := range ps[j].Rules {
+				rule(&ps[j].Rules[k], true)
+			}
+		}
+	}
+	// only the parts Instructions() actually looks at
+	if c.XDP {
+		if !c.Suppress {
+			tiers(c.HN)
+		}
+	} else {
+		tiers(c.HP)
+		tiers(c.HF)
+		if !c.Suppress {
+			tiers(c.HN)
+			profs(c.HPR)
+		}
+	}
+	if !c.HostIface {
+		tiers(c.T)
+		profs(c.P)
+	}
+	return f
+}
+
+// ---- packets --------------------------------------------------------------------
+
+func be16(x *big.Int) [16]byte {
+	var b [16]byte
+	x.FillBytes(b[:])
+	return b
+}
+
+func parsePkt(w []string, c *gCfg) (*pkt, *env, bool) {
+	if len(w) != 16 {
+		return nil, nil, false
+	}
+	bi := func(s string) *big.Int {
+		v, ok := new(big.Int).SetString(s, 10)
+		if !ok {
+			panic("bad number " + s)
+		}
+		return v
+	}
+	u := func(s string) uint64 {
+		v, err := strconv.ParseUint(s, 10, 64)
+		if err != nil {
+			panic("bad number " + s)
+		}
+		return v
+	}
+	p := &pkt{Src: be16(bi(w[1])), Pre: be16(bi(w[2])), Post: be16(bi(w[3])), Sport: uint16(u(w[4])), Dport: uint16(u(w[5])),
+		PreDport: uint16(u(w[6])), PostDport: uint16(u(w[7])), Proto: uint8(u(w[8])), Flags: u(w[9]), RC: uint32(u(w[10])), Hits: uint8(u(w[11]))}
+	e := &env{c: c, cb0: uint32(u(w[12])), cb1: uint32(u(w[13])), stateOK: w[14][0] == '1', tailOK: w[14][1] == '1', polTailOK: w[14][2] == '1'}
+	if w[15] != "-" {
+		for _, t := range strings.Split(w[15], ",") {
+			f := strings.Split(t, ":")
+			m := member{ID: u(f[0]), Port: uint16(u(f[2])), Proto: uint8(u(f[3]))}
+			a := bi(f[1])
+			if c.V6 {
+				a.FillBytes(m.Addr[:])
+			} else {
+				a.FillBytes(m.Addr[:4])
+			}
+			e.members = append(e.members, m)
+		}
+	}
+	return p, e, true
+}
+
+func mkState(p *pkt) []byte {
+	st := make([]byte, stateSize)
+	copy(st[8:], p.Src[:])
+	copy(st[40:], p.Pre[:])
+	copy(st[56:], p.Post[:])
+	put := func(off, n int, v uint64) {
+		for k := 0; k < n; k++ {
+			st[off+k] = byte(v >> (8 * k))
+		}
+	}
+	put(92, 4, uint64(p.RC))
+	put(96, 2, uint64(p.Sport))
+	put(98, 2, uint64(p.Dport))
+	put(100, 2, uint64(p.PreDport))
+	put(102, 2, uint64(p.PostDport))
+	put(104, 1, uint64(p.Proto))
+	put(108, 1, uint64(p.Hits))
+	put(368, 8, p.Flags)
+	return st
+}
+
+// bpfProtoCfg returns a copy of the configuration in which protocol names are
+// replaced by what the BUILDER's protocolToNumber makes of them (unknown name
+// -> 0); used only to attribute a verdict mismatch to the known finding.
+func bpfProtoCfg(c *gCfg) *gCfg {
+	line := c.line()
+	d := parseCfgLine(line)
+	fix := func(p *gProto) *gProto {
+		if p == nil || !p.IsName {
+			return p
+		}
+		switch strings.ToLower(p.Name) {
+		case "tcp", "udp", "icmp", "sctp":
+			return p
+		}
+		return &gProto{Num: 0}
+	}
+	each := func(r *gRule) { r.Proto, r.NotProto = fix(r.Proto), fix(r.NotProto) }
+	for _, ts := range [][]gTier{d.T, d.HP, d.HF, d.HN} {
+		for i := range ts {
+			for j := range ts[i].Policies {
+				for k := range ts[i].Policies[j].Rules {
+					each(&ts[i].Policies[j].Rules[k])
+				}
+			}
+		}
+	}
+	for _, ps := range [][]gPolicy{d.P, d.HPR} {
+		for j := range ps {
+			for k := range ps[j].Rules {
+				each(&ps[j].Rules[k])
+			}
+		}
+	}
+	return d
+}
+
+func matches(o outcome, ex obs) bool {
+	if o.kind != ex.kind || o.target != ex.target {
+		return false
+	}
+	if ex.rc >= 0 && int64(le(o.st[92:96])) != ex.rc {
+		return false
+	}
+	return true
+}
+
+func exec(h *rt.H, s *state, op string) string {
+	w := strings.Fields(op)
+	switch w[0] {
+	case "prog":
+		s.cfg = parseCfgLine(op)
+		progs, res := build(s.cfg)
+		s.progs = progs
+		f := s.cfg.facts()
+		h.Count("build:" + res)
+		if res != "ok" {
+			// oracle: compiling a valid configuration never fails or crashes
+			if f.valid {
+				sig := "compile-" + res
+				if f.profileLog {
+					sig = "profile-log-" + res
+				}
+				h.OracleFail(sig, "the real polprog.Builder "+res+"s on a valid policy configuration", map[string]any{"prog": op})
+			}
+			return res
+		}
+		if len(progs) > 1 {
+			h.Count(fmt.Sprintf("split:%d", len(progs)))
+		}
+		return "ok " + showProgs(progs)
+	case "real":
+		if len(w) != 2 || s.cfg == nil {
+			return "bad-op"
+		}
+		p := parseProgs(w[1])
+		if p == nil {
+			return "bad-op"
+		}
+		s.progs = p
+		return fmt.Sprintf("ok %d", len(p))
+	case "pkt":
+		if s.cfg == nil || s.progs == nil {
+			return "bad-op"
+		}
+		p, e, ok := parsePkt(w, s.cfg)
+		if !ok {
+			return "bad-op"
+		}
+		o := runChain(e, s.progs, mkState(p))
+		ref := verdict(e, p)
+		h.Count("ref:" + ref)
+		good := false
+		if o.kind != "fault" {
+			if !e.stateOK {
+				shot := uint64(2)
+				if s.cfg.XDP {
+					shot = 1
+				}
+				good = o.kind == "exit" && o.target == shot
+			} else {
+				good = matches(o, expectedObs(e, ref))
+				// a failing tail call into the NEXT sub-program of a split build drops the packet
+				if !good && !e.polTailOK && len(s.progs) > 1 {
+					shot := uint64(2)
+					if s.cfg.XDP {
+						shot = 1
+					}
+					good = o.kind == "exit" && o.target == shot
+				}
+			}
+		}
+		f := s.cfg.facts()
+		if !good && f.valid {
+			sig := "verdict-mismatch"
+			if f.oddProtoName {
+				e2 := *e
+				e2.c = bpfProtoCfg(s.cfg)
+				if o.kind != "fault" && e.stateOK && matches(o, expectedObs(&e2, verdict(&e2, p))) {
+					sig = "proto-name-unsupported"
+				}
+			}
+			h.OracleFail(sig, "the real builder's instructions, interpreted, do not reach the reference verdict ("+ref+")",
+				map[string]any{"prog": s.cfg.line(), "pkt": op, "got": fmt.Sprintf("%s %d", o.kind, o.target)})
+		}
+		exp := "BAD"
+		if good {
+			exp = "ok"
+		}
+		if o.kind == "fault" {
+			h.Count("out:fault")
+			return "fault ref=" + ref + " exp=BAD"
+		}
+		h.Count("out:" + o.kind)
+		nh := int(o.st[108])
+		var ids []string
+		for j := 0; j < nh && j < 32; j++ {
+			ids = append(ids, strconv.FormatUint(le(o.st[112+8*j:120+8*j]), 10))
+		}
+		rc := strconv.FormatUint(le(o.st[92:96]), 10)
+		return fmt.Sprintf("%s %d rc=%s fl=%d h=%d:%s ref=%s exp=%s", o.kind, o.target, rc, le(o.st[368:376]), nh, strings.Join(ids, ","), ref, exp)
+	}
+	return "bad-op"
+}
 
 func main() {
-	b := polprog.NewBuilder(idp{}, 1, 2, 3, 4, polprog.WithAllowDenyJumps(7, 8))
-	insns, err := b.Instructions(polprog.Rules{Tiers: []polprog.Tier{{Name: "t", Policies: []polprog.Policy{{Name: "p", Rules: []polprog.Rule{{Rule: &proto.Rule{Action: "allow", SrcNet: []string{"10.0.0.1/8"}}}}}}}}})
-	fmt.Println(err)
-	for _, p := range insns {
-		for i, in := range p {
-			fmt.Println(i, in)
+	h := rt.New()
+	defer h.Close()
+	h.Rule = "case = one policy configuration (builder options × host/workload/XDP shape × tiers/policies/profiles × rules over " +
+		"protocol, CIDR, IP-set, port, named-port, ICMP matches and negations; boundary-directed) compiled by the REAL builder, then 4..12 " +
+		"packet states directed at the rules' boundaries (addresses at/around CIDR edges, ports at/around range edges, IP-set hits/near-misses, " +
+		"host flags, tail-call/state-lookup failures); distinct = distinct configuration line; non-trivial = the configuration has >=1 rule with " +
+		">=1 match criterion and its packets reach >=2 different reference verdicts or exercise a split"
+	runCase := func(ops []string, tag string) {
+		h.Case(tag)
+		s := &state{}
+		refs := map[string]bool{}
+		for _, op := range ops {
+			out := exec(h, s, op)
+			h.Op(op, out)
+			h.Count("op:" + strings.Fields(op)[0])
+			if i := strings.Index(out, "ref="); i >= 0 {
+				refs[strings.Fields(out[i:])[0]] = true
+			}
 		}
+		if s.cfg != nil && (len(refs) >= 2 || len(s.progs) > 1) {
+			h.Nontrivial(ops[0])
+		}
+		h.Sample()
+	}
+	if h.Replay != "" {
+		runCase(h.ReplayLines(), "replay")
+		return
+	}
+	for i := 0; i < h.N; i++ {
+		runCase(genCase(h, i), "gen")
 	}
 }
